@@ -274,6 +274,8 @@ func Convert(value any, typ reflect.Type) (any, error) { //nolint: gocyclo
 		}
 	case reflect.String:
 		switch value := value.(type) {
+		case nil:
+			return "", nil
 		case []byte:
 			return string(value), nil
 		case float64:
